@@ -100,6 +100,9 @@ impl Table for Cedt {
     fn name(&self) -> &'static str {
         "cedt"
     }
+    fn unjudged(&self, _ops: &[Op]) -> Vec<usize> {
+        vec![8] // table Revision: pinned to the baseline, not judged
+    }
     fn kinds(&self) -> &'static [&'static str] {
         &["add_host_bridge", "add_fixed_memory", "add_xor_interleave_math", "add_port_association"]
     }
@@ -218,6 +221,17 @@ impl Table for Cedt {
             }
         }
         Ok(v)
+    }
+    fn summary(&self, img: &[u8], ents: &[Ent]) -> Vec<u64> {
+        let mut v = vec![];
+        for e in ents {
+            match e.ty {
+                1 if e.len >= 36 => v.push(img[e.off + 24] as u64), // encoded number of interleave ways
+                2 if e.len >= 8 => v.push(img[e.off + 7] as u64),   // number of bitmap entries
+                _ => {}
+            }
+        }
+        v
     }
     fn fields(&self, k: u8, s: u16) -> Vec<FT> {
         use FT::*;
